@@ -632,6 +632,12 @@ func (r *runner) runSrv(f []string) string {
 		return fmt.Sprintf("mon doneall %d", n)
 	case "settle": // wait until nothing moves any more; the outputs are summarised, not compared
 		return "mon " + s.settle()
+	case "stall": // the peer stops reading from here on; only burst, doneall and stallcut may follow
+		s.mc.out.setStall(true)
+		return "mon stalled"
+	case "stallcut": // the peer stops reading, goes on sending, then disconnects: runtime behaviour the serial model has no words for
+		n, _ := strconv.Atoi(f[3])
+		return "mon " + s.stallCut(n)
 	case "cut":
 		s.mc.in.close()
 		return s.quiesce()
@@ -681,6 +687,46 @@ func (s *srvConn) end() string {
 	}
 	s.shutdown()
 	return "ok " + ret
+}
+
+// stallCut: the peer stops reading (writes to it block), sends n PING frames, each of which asks for an answer, and
+// then drops the connection. ServeConn has to return and the stream loop has to end; the result is judged by the
+// monitors only.
+func (s *srvConn) stallCut(n int) string {
+	if s.returned {
+		return "stallcut gone"
+	}
+	s.mc.out.setStall(true)
+	ping := frameBytes(6, 0, 0, []byte{1, 2, 3, 4, 5, 6, 7, 8})
+	var b []byte
+	for i := 0; i < n; i++ {
+		b = append(b, ping...)
+	}
+	s.mc.in.write(b)
+	var last [3]int64
+	for i, stable := 0, 0; i < 2000 && stable < 20; i++ {
+		cur := [3]int64{http2.VerifForwardedN.Load(), http2.VerifQueuedN.Load(), http2.VerifLoopTopN.Load()}
+		if cur == last {
+			stable++
+		} else {
+			stable = 0
+		}
+		last = cur
+		time.Sleep(time.Millisecond)
+	}
+	blockedAt := fmt.Sprintf("forwarded=%d queued=%d", last[0], last[1])
+	s.mc.Close() // the peer is gone: reads end, the blocked write fails
+	served, looped := false, false
+	deadline := time.Now().Add(4 * time.Second)
+	for time.Now().Before(deadline) {
+		served, looped = s.isServed(), http2.VerifLoopExitN.Load() > 0
+		if served && looped {
+			break
+		}
+		time.Sleep(2 * time.Millisecond)
+	}
+	s.returned = true
+	return fmt.Sprintf("stallcut pings=%d %s served=%v looped=%v", n, blockedAt, served, looped)
 }
 
 // mon: monitor values the model does not predict (it answers "mon").
